@@ -1,6 +1,7 @@
 package main
 
 import (
+	"path"
 	"sort"
 	"strings"
 )
@@ -79,6 +80,7 @@ type treeB struct {
 }
 
 func (t *treeB) dir(p string) {
+	p = path.Clean(p)
 	// parents too
 	for q := p; q != "/" && q != "" && q != "."; q = q[:strings.LastIndex(q, "/")] {
 		if _, ok := t.ents[q]; !ok {
@@ -90,10 +92,12 @@ func (t *treeB) dir(p string) {
 	}
 }
 func (t *treeB) file(p, content string) {
+	p = path.Clean(p)
 	t.dir(p[:strings.LastIndex(p, "/")])
 	t.ents[p] = []interface{}{hx(p), "f", hx(content)}
 }
 func (t *treeB) link(p, target string) {
+	p = path.Clean(p)
 	t.dir(p[:strings.LastIndex(p, "/")])
 	t.ents[p] = []interface{}{hx(p), "l", hx(target)}
 }
